@@ -180,6 +180,28 @@ def process_level(ctx, cfg, only=None):
     if len(obs) != len(scs):
         ctx.problems.append(("build", "the process-level driver did not finish: %s" % (r.stderr[-1500:]), None))
         return
+    # The same reporting policy as for the in-process harnesses (lib/vcheck.py): the process-level run drives
+    # real processes against wall-clock deadlines; a failing scenario is run again on its own, and one that passes
+    # three times in a row is recorded as not reproducible (evidence) and not reported.
+    for i in [j for j, o in enumerate(obs) if o != "ok"][:4]:
+        again = []
+        for k in range(3):
+            sf = os.path.join(ctx.scratch, "e2e-rerun-%d-%d.json" % (i, k))
+            rf = os.path.join(ctx.scratch, "e2e-rerun-%d-%d.report.json" % (i, k))
+            with open(sf, "w") as fh:
+                json.dump([spec[i]], fh)
+            rr = subprocess.run([ve2e, "-spec", sf, "-collector", built["gnmi_collector"], "-cli", built["gnmi_cli"],
+                                 "-scratch", run_dir, "-report", rf], capture_output=True, text=True, env=vcheck.GOENV,
+                                timeout=600)
+            o = [x for x in rr.stdout.split("\n") if x]
+            again.append(o[0] if o else "<no-output>")
+            if again[-1] != "ok":
+                break
+        if len(again) == 3 and all(a == "ok" for a in again):
+            ctx.cov.setdefault("not_reproducible", []).append(
+                {"component": "e2e-process", "op": scs[i][0], "impl_once": obs[i][:300], "model": "ok", "reruns_agreeing": 3})
+            vcheck.log("  e2e-process: scenario %s failed once (%s) and passed 3 re-runs on its own (not reported)" % (scs[i][0], obs[i][:100]))
+            obs[i] = "ok"
     okc = 0
     cstat = ctx.cov["components"].setdefault("e2e-process", {"scenarios": 0, "ok": 0, "cli_invocations": 0, "seconds": 0.0})
     for i, (sid, l) in enumerate(scs):
